@@ -54,6 +54,10 @@ package cred
 //@   modifies s.cachedContent, s.cachedCredMap, s.cachedUserLookupMap, s.tcp.ulm, s.udp.ulm
 //@   ensures isnil(s.cachedCredMap) == isnil(s.cachedUserLookupMap)
 //@   ensures isnil(result) ==> !isnil(s.cachedCredMap) && !isnil(s.cachedUserLookupMap)
+// Every user listed by a (re)load is accepted under its own name: the maps are either left exactly as they
+// were (unchanged file) or rebuilt so that each listed user's key hash is attributed to that user.
+//@   loop 0 invariant forall u string :: {has(credMap, u)} has(credMap, u) ==> !isnil(credMap[u]) && has(userLookupMap, credMap[u].uPSKHash) && userLookupMap[credMap[u].uPSKHash].Name == u
+//@   ensures isnil(result) ==> (s.cachedCredMap == old(s.cachedCredMap) && s.cachedUserLookupMap == old(s.cachedUserLookupMap)) || credUsersWF(s)
 
 // A registered server has been loaded successfully: its maps exist.
 //@ func (*Manager).RegisterServer
